@@ -147,9 +147,13 @@ func (g *srvGen) opAuthorize() {
 	case kind == 5: // valid signature, then one bit of the signed content flipped
 		ea = g.authsSeen[r.Intn(len(g.authsSeen))]
 		ea.Debt ^= 1 << uint(r.Intn(64))
-	default: // same content re-signed (identical for a deterministic signer)
+	default: // same content re-signed: identical for the deterministic signer, a different valid signature with a fresh nonce
 		ea = g.authsSeen[r.Intn(len(g.authsSeen))]
-		ea = SignAuth(ea, g.s.E.GCA.Priv)
+		if r.Chance(50) {
+			ea.Signature = SignRandom(ea.SigningBytes(), g.s.E.GCA.Priv)
+		} else {
+			ea = SignAuth(ea, g.s.E.GCA.Priv)
+		}
 	}
 	obs := g.s.Authorize(ea, r.Chance(60))
 	g.authsSeen = append(g.authsSeen, ea)
@@ -308,6 +312,17 @@ func (g *srvGen) opDgram() {
 	case 6: // signed by another key in the system
 		dv := g.devs[r.Intn(len(g.devs))]
 		d = MkReport(dv.id, g.tsChoice(), 2+uint64(r.Intn(100)), g.signer(r.Intn(4))).Serialize()
+		if r.Chance(30) {
+			// ... or by the mirror key n-d of the device's own key (same x coordinate, other parity)
+			rep := MkReport(dv.id, g.tsChoice(), 2+uint64(r.Intn(100)), MirrorKey(dv.key.Priv))
+			d = rep.Serialize()
+			obs := "ok"
+			if glow.Verify(dv.key.Pub, rep.SigningBytes(), rep.Signature) {
+				obs = "FAILED"
+			}
+			g.s.T.Count("crypto.mirror")
+			g.s.T.Line("crypto.check what=signature-by-the-mirror-key-verifies => %s", obs)
+		}
 	case 7: // field swap: id and timeslot exchanged after signing
 		rep := mk()
 		rep.ShortID, rep.Timeslot = rep.Timeslot, rep.ShortID
@@ -520,6 +535,20 @@ func (g *srvGen) opAuthServer() {
 		as.HttpPort = 1 // an empty host means "this machine": never a port that another process may own
 	}
 	as.GCAAuthorization = glow.Sign(as.SigningBytes(), g.signer(r.pick([]int{80, 8, 6, 6})))
+	if snap := g.s.E.S.VerifSnapshot(); len(snap.Servers) > 0 && r.Chance(20) {
+		// a listed entry again, one field changed, the signature it is listed with kept
+		as = snap.Servers[r.Intn(len(snap.Servers))]
+		switch r.Intn(4) {
+		case 0:
+			as.Banned = !as.Banned
+		case 1:
+			as.HttpPort++
+		case 2:
+			as.Location += "x"
+		default:
+			as.UdpPort ^= 1
+		}
+	}
 	g.s.AuthServer(as)
 }
 
@@ -953,13 +982,42 @@ func runSrvScenario(focus string, seed uint64, size int, t *Trace) error {
 		})
 	}
 	ticks := 0
-	if focus == "C07" && r.Chance(40) {
+	if (focus == "C07" && r.Chance(40)) || (focus == "C13" && r.Chance(35)) {
 		g.opRegisterRace()
 	} else if focus == "C05" && r.Chance(40) {
 		// stay unregistered for a while (torn registration states)
 	} else if focus != "C07" || r.Chance(50) {
 		// most scenarios register right away
 		g.opRegister()
+	}
+	if focus == "C04" && g.regDone && seed%32 == 5 {
+		// a long-lived server: thousands of accepted reports, and every restart appends the in-window ones
+		// again, so after a few restarts the report log is well over a mebibyte
+		if glow.CurrentTimeslot() < 500 {
+			s.SetNow(500 + uint32(r.Intn(100)))
+		}
+		now := glow.CurrentTimeslot()
+		size = 0 // this scenario is the long history and its restarts; every further operation would hash and replay all of it
+		for d := 0; d < 8; d++ {
+			k := detKey(seed, 200+d)
+			ea := SignAuth(g.freshAuth(uint32(30+d), k), s.E.GCA.Priv)
+			if s.Authorize(ea, false) != "new" {
+				continue
+			}
+			for ts := int64(now) - 430; ts <= int64(now)+430; ts++ {
+				if ts >= 0 {
+					s.DgramQuick(MkReport(uint32(30+d), uint32(ts), 2+uint64(ts%900), k.Priv).Serialize(), k.Pub)
+				}
+			}
+			s.Snap()
+		}
+		t.Count("bulk-history")
+		for k := 0; k < 2; k++ {
+			if err := s.Restart(); err != nil {
+				t.DumpStats()
+				return nil
+			}
+		}
 	}
 	for i := 0; i < size; i++ {
 		if s.E.S == nil || s.Lost {
